@@ -97,11 +97,13 @@ func (f *Fragmentation) Process(id uint32, first, last uint16, more bool, vv buf
 	}
 	f.mu.Unlock()
 
-	res, done, consumed := r.process(first, last, more, vv)
+	res, done, consumed, err := r.process(first, last, more, vv)
 
 	f.mu.Lock()
 	f.size += consumed
-	if done {
+	if done || err != nil {
+		// Either the packet is complete, or the fragments received for
+		// this id are inconsistent: discard the reassembler.
 		f.release(r)
 	}
 	// Evict reassemblers if we are consuming more memory than highLimit until
